@@ -86,6 +86,12 @@ def run(run, model, proof):
         files = ren
         eids = [m["eid"] for _, _, m in files if m["kind"] == "pel"]
         e = rng.choice(eids) if eids and rng.random() < 0.7 else rng.randrange(1 << 32)
+        if eids and rng.random() < 0.5:
+            # more than one name containing the id (e.g. the .json written by an earlier --json run next to the PEL)
+            for extra in rng.sample(["log_%08X.%08X.json" % (e, e), "copy_of_%08X" % e, "%08X" % e], rng.randrange(1, 3)):
+                if extra not in used:
+                    used.add(extra)
+                    files.append((extra, b"{}" if extra.endswith("json") else bytes(rng.randrange(256) for _ in range(20)), dict(kind="junk")))
         espell = rng.choice(["%08X", "0x%08x", "%08x"]) % e
         root, pel = build_tree(files, rng)
         try:
@@ -171,6 +177,14 @@ def run(run, model, proof):
         if kind == "delete-all":
             removed = [r for r in removed if r not in links]
         m_created = sorted(("logs/" if "-o" not in argv else "out/") + n for k2, n in eff if k2 == "create")
+        if kind == "json" and clean and links:
+            # --json --clean with a link to a file of the same directory: whether the link still has a target when it is
+            # reached depends on the walk order (its target may have been cleaned already); links are ignored on both sides
+            lnames = tuple(os.path.basename(l) + "." for l in links)
+            removed = [r for r in removed if r not in links]
+            m_removed = [r for r in m_removed if r not in links]
+            created = [c for c in created if not os.path.basename(c).startswith(lnames)]
+            m_created = [c for c in m_created if not os.path.basename(c).startswith(lnames)]
         if m_removed != removed or m_created != created:
             run.disagreements_checked += 1
             run.violation("model:effects:" + kind, "effects differ from the model: removed %r / %r, created %r / %r" % (removed, m_removed, created, m_created),
